@@ -66,6 +66,22 @@ pub fn eval(bits: &[bool], w: usize, st: &mut Stats) -> Result<(), String> {
     Ok(())
 }
 
+/// Large synthetic shapes: frame, checkerboard, nested rings, solid, corner dot + bottom row.
+pub fn big_shape(k: usize, w: usize, h: usize) -> Vec<bool> {
+    (0..w * h)
+        .map(|i| {
+            let (r, c) = (i / w, i % w);
+            match k {
+                0 => r == 0 || c == 0 || r == h - 1 || c == w - 1,
+                1 => (r + c) % 2 == 0,
+                2 => r.min(c).min(h - 1 - r).min(w - 1 - c) % 2 == 0,
+                3 => true,
+                _ => i == 0 || i == w * h - 1 || r == h - 1,
+            }
+        })
+        .collect()
+}
+
 fn desc(bits: &[bool], w: usize) -> Value {
     json!({"width": w, "bits": bits_str(bits)})
 }
@@ -183,12 +199,22 @@ pub fn run(ctx: &Ctx) -> i32 {
             }
         }
     });
+    // 4. large bitmaps (the path code works on 16-bit node coordinates: up to 32766 modules per side)
+    let big: Vec<(usize, usize)> = vec![(180, 180), (181, 181), (200, 200), (256, 256), (4000, 10), (10, 4000), (32000, 2), (2, 32000)];
+    ctx.par(big.len() as u64, |c, wk| {
+        let (w, h) = big[c as usize];
+        wk.label(|| format!("large bitmap {}x{}", w, h));
+        for k in 0..5 {
+            let s = big_shape(k, w, h);
+            wk.check((w * h) as u64, || json!({"width": w, "height": h, "large_shape": k}), |st| { eval(&s, w, st)?; st.count("large_bitmaps"); Ok(()) });
+        }
+    });
     let _ = Tier::Quick;
     let cov = json!({
         "evaluations": ctx.evaluations(),
         "distinct_nontrivial": ctx.counter("nontrivial"),
         "rule": format!("all w x h bool arrays with a dark top-left module for every (w, h) with w*h <= {} (complete); all arrays with a light top-left module up to 12 modules (pixels/unicode only); bitmaps of encoded symbols of all 48 sizes and of a sweep of short inputs; \
-synthetic topologies (nested rings, diagonal chains, combs, checkerboards, spirals). Oracle R8: interpret the segments from (0,0) with SVG semantics, every segment non-zero and axis parallel, every sub-path closed, Move only after Close relative to the start of the closed sub-path, \
+synthetic topologies (nested rings, diagonal chains, combs, checkerboards, spirals); large bitmaps up to 32000 modules per side (frame, checkerboard, rings, solid). Oracle R8: interpret the segments from (0,0) with SVG semantics, every segment non-zero and axis parallel, every sub-path closed, Move only after Close relative to the start of the closed sub-path, \
 all vertices inside the bounding box, even-odd fill == dark modules; pixels() == row-major dark coordinates; unicode() parsed back == bitmap inside a one-module light border. All cases distinct; non-trivial = more than one sub-path or more than 5 segments.", limit),
         "exhaustive": true,
         "max_subpaths": ctx.maximum("subpaths"),
@@ -198,6 +224,10 @@ all vertices inside the bounding box, even-odd fill == dark modules; pixels() ==
 }
 
 pub fn replay(case: &Value) -> Result<(), String> {
+    if let Some(k) = case["large_shape"].as_u64() {
+        let (w, h) = (case["width"].as_u64().ok_or("width")? as usize, case["height"].as_u64().ok_or("height")? as usize);
+        return eval(&big_shape(k as usize, w, h), w, &mut Stats::default());
+    }
     let bits: Vec<bool> = case["bits"].as_str().ok_or("bits")?.chars().map(|c| c == '1').collect();
     eval(&bits, case["width"].as_u64().ok_or("width")? as usize, &mut Stats::default())
 }
